@@ -8,6 +8,7 @@ EXPLANATION = (
     "D3 Depend::new: split on \":\", parts != 2 -> Invalid, part 0 -> Pattern::new with `?`, part 1 -> PkgPath::from_str with `?`, accessors return the stored fields")
 NOT_DECIDED = ["Path::components normalisation (repeated / trailing slashes, interior '.'), which is what makes both spellings equal (std semantics)"]
 CONFIG_SENSITIVE = False
+DESUGAR = True
 
 NEW = "pkgpath::PkgPath::new"
 KINDS = ["Prefix", "RootDir", "CurDir", "ParentDir", "Normal"]
@@ -140,7 +141,7 @@ def run(ctx):
             if ok:
                 s0, s1 = split_part(call_args(pat[0])[0]), split_part(call_args(pth[0])[0])
                 ok = bool(s0) and bool(s1) and s0["index"] == 0 and s1["index"] == 1 and s0["sep"] == ":" and s1["sep"] == ":" and s0["api"] == "split" and s0["subject"] == ("param", 1) and s0["vec"] == s1["vec"]
-                ok = ok and bool(find_calls(flds["pattern"], "Try>::branch")) and bool(find_calls(flds["pkgpath"], "Try>::branch"))
+                ok = ok and has_try(flds["pattern"]) and has_try(flds["pkgpath"])
                 ln = [c for c in p.conds() if isinstance(c.term, tuple) and c.term[0] == "binop" and c.term[1] in ("Ne", "Eq") and is_call(c.term[2], "Vec::len")]
                 ok = ok and bool(ln) and const_int(ln[0].term[3]) == 2 and ((ln[0].fact == ("eq", True)) == (ln[0].term[1] == "Eq"))
             ctx.check(ok, "D3-DEPEND", DN, "ok-path", "exactly two ':'-separated parts: Pattern::new(part0)?, PkgPath::from_str(part1)?",
